@@ -56,9 +56,10 @@ Record quirks := {
   q_void_eq : bool;
   (* `Gib <expression without a type> zurück.` is accepted in a function that returns nothing *)
   q_void_ret : bool;
-  (* the typechecker looks names up again in the table as it is when it runs: the initialiser of
-     a declaration sees the variable being declared, and nested blocks are checked again against
-     their final tables *)
+  (* the typechecker looks names up again in the table as it is when it runs (it ignores the
+     declarations the resolver bound): the initialiser of a declaration sees the variable being
+     declared, nested blocks are checked again against their final tables, and it goes unnoticed
+     that the resolver resolves the bounds of a counting loop in the table of the loop body *)
   q_tc_by_name : bool;
   (* checkFieldAccess only protects private fields if the Kombination itself is visible *)
   q_field_unimported : bool
@@ -329,8 +330,10 @@ Fixpoint ck_stmt (F : fenv) (G : env) (d : nat) (r : retctx) (s : stmt) : list d
       let dp := pt_type G t ++ art_diag t a ++ pt_expr F G from ++ pt_expr F G to ++ pt_opt F G step in
       let (d1, Gb) := ck_block F (bind (push G) x (BVar t)) (S d) r b in
       (* resolver.VisitForStmt: r.setScope(stmt.Body.Symbols) — the bounds are resolved in the
-         table of the (already parsed) body *)
-      let dr := rs_expr Gb from ++ rs_expr Gb to ++ rs_opt Gb step in
+         table of the (already parsed) body.  Harmless only as long as the typechecker does not use the
+         resolver's bindings; the patch that makes it use them resolves the bounds in the loop's own scope *)
+      let Gr := if q_tc_by_name Q then Gb else G in
+      let dr := rs_expr Gr from ++ rs_expr Gr to ++ rs_opt Gr step in
       (dp ++ d1 ++ dr ++ tcs_stmt (q_tc_by_name Q) F G r s, G)
   | SBreak | SContinue => (match d with O => [DBreak] | S _ => [] end, G)
   | SReturn oe =>
